@@ -57,6 +57,7 @@ func C14(c *core.Ctx) {
 	c.RuleText = "instances: the comparison/equality/hash functions of enc.Component and enc.Name, every index operation in the 10 URI-parsing functions. Non-trivial = has a branch edge, operand pair or index form to decide."
 	p := c.P
 	c14Round4(c)
+	c14DecimalTextLimit(c)
 	// ---- R14.9 (shared with C15 R15.4) containers keyed by a string form of a name use one
 	// form for insert, find and remove: two forms that disagree for some component types
 	// give the container a notion of name identity different from Name.Equal
@@ -997,4 +998,56 @@ func c14Round4(c *core.Ctx) {
 	}
 	c.Decide(true, "R14.11", "parsed-name-used-only-on-success", "-", fmt.Sprintf("%d string-parser calls with a checked error inspected", nCalls), "")
 	c.Floor("R14.11", "string-parser calls with a checked error", nCalls, 10)
+}
+
+// c14DecimalTextLimit — R14.11 "URI round trip": every number a numeric component can hold
+// (up to 2^64-1, twenty decimal digits) is printed by String and must parse back. A limit on
+// the length of the decimal text in compValFmtDec.FromString refuses only texts longer than
+// twenty characters: `len(s) > K` needs K ≥ 20, `len(s) >= K` needs K ≥ 21. (No limit at
+// all is fine: strconv refuses what does not fit.)
+func c14DecimalTextLimit(c *core.Ctx) {
+	p := c.P
+	var fn *ssa.Function
+	for _, f := range p.FuncsIn(core.ModPath + "/std/encoding") {
+		if id := core.FuncID(f); id.Recv == "compValFmtDec" && id.Name == "FromString" {
+			fn = f
+		}
+	}
+	if fn == nil || len(fn.Params) == 0 {
+		c.Und("R14.11", "anchor:compValFmtDec.FromString", "-", "function not found")
+		return
+	}
+	s := ssa.Value(fn.Params[len(fn.Params)-1])
+	n, bad := 0, ""
+	core.InstrsDeep(fn, func(in ssa.Instruction) {
+		iff, ok := in.(*ssa.If)
+		if !ok {
+			return
+		}
+		op, x, y, okC := core.CmpOrient(iff.Cond, core.IsLen)
+		if !okC {
+			return
+		}
+		l, isLen := core.LenOf(x)
+		if !isLen || core.Strip(l) != s {
+			return
+		}
+		k, isK := core.ConstInt(y)
+		if !isK {
+			return
+		}
+		t := k // texts longer than t are refused (or, for the mirrored forms, only texts up to t pass)
+		switch op {
+		case token.GTR, token.LEQ:
+		case token.GEQ, token.LSS:
+			t = k - 1
+		default:
+			return
+		}
+		n++
+		if t < 20 {
+			bad = fmt.Sprintf("%s (texts longer than %d characters)", c.Pos(iff), t)
+		}
+	})
+	c.Decide(bad == "", "R14.11", "decimal-text-limit-admits-twenty-digits", p.Pos(fn.Pos()), fmt.Sprintf("%d length limit(s) on the decimal text, none below twenty digits", n), "compValFmtDec.FromString refuses decimal texts at "+bad+": 2^64-1 has twenty digits — seg / off / v / t / seq components with values of 10^19 and more are printed by String but no longer parse back")
 }
